@@ -1,3 +1,4 @@
+import CircBuf.Lemmas.Tie.Live
 import CircBuf.Lemmas.Tie.PushPop
 import CircBuf.Lemmas.Tie.Remove
 import CircBuf.Lemmas.Tie.Swap
@@ -22,6 +23,7 @@ maybe theorem C01_push_back_src (s : Sys) (x : Elem) (h : Inv s.buf) :
   first
   | (rw [tie_push_back _ s h (nd_pushBack _ s h)]; exact C01_push_back s x h)
   | (have h0 := C01_push_back s x h; unfold Refines at h0 ⊢; rw [tie_push_back _ s h (nd_pushBack _ s h)]; exact h0)
+  | (exact Refines.of_liveEq (ltie_push_back _ s h (nd_pushBack _ s h)) (C01_push_back s x h))
 
 maybe theorem C01_push_front_src (s : Sys) (x : Elem) (h : Inv s.buf) :
     Refines (Gen.push_front x) s (Spec.pushFront s.buf.cap (abs s.buf) x).2
@@ -29,6 +31,7 @@ maybe theorem C01_push_front_src (s : Sys) (x : Elem) (h : Inv s.buf) :
   first
   | (rw [tie_push_front _ s h (nd_pushFront _ s h)]; exact C01_push_front s x h)
   | (have h0 := C01_push_front s x h; unfold Refines at h0 ⊢; rw [tie_push_front _ s h (nd_pushFront _ s h)]; exact h0)
+  | (exact Refines.of_liveEq (ltie_push_front _ s h (nd_pushFront _ s h)) (C01_push_front s x h))
 
 maybe theorem C01_try_push_back_src (s : Sys) (x : Elem) (h : Inv s.buf) :
     Refines (Gen.try_push_back x) s (Spec.tryPushBack s.buf.cap (abs s.buf) x).2
@@ -36,6 +39,7 @@ maybe theorem C01_try_push_back_src (s : Sys) (x : Elem) (h : Inv s.buf) :
   first
   | (rw [tie_try_push_back _ s h (nd_tryPushBack _ s h)]; exact C01_try_push_back s x h)
   | (have h0 := C01_try_push_back s x h; unfold Refines at h0 ⊢; rw [tie_try_push_back _ s h (nd_tryPushBack _ s h)]; exact h0)
+  | (exact Refines.of_liveEq (ltie_try_push_back _ s h (nd_tryPushBack _ s h)) (C01_try_push_back s x h))
 
 maybe theorem C01_try_push_front_src (s : Sys) (x : Elem) (h : Inv s.buf) :
     Refines (Gen.try_push_front x) s (Spec.tryPushFront s.buf.cap (abs s.buf) x).2
@@ -43,24 +47,28 @@ maybe theorem C01_try_push_front_src (s : Sys) (x : Elem) (h : Inv s.buf) :
   first
   | (rw [tie_try_push_front _ s h (nd_tryPushFront _ s h)]; exact C01_try_push_front s x h)
   | (have h0 := C01_try_push_front s x h; unfold Refines at h0 ⊢; rw [tie_try_push_front _ s h (nd_tryPushFront _ s h)]; exact h0)
+  | (exact Refines.of_liveEq (ltie_try_push_front _ s h (nd_tryPushFront _ s h)) (C01_try_push_front s x h))
 
 maybe theorem C01_pop_back_src (s : Sys) (h : Inv s.buf) :
     Refines Gen.pop_back s (Spec.popBack (abs s.buf)).2 (Spec.popBack (abs s.buf)).1 := by
   first
   | (rw [tie_pop_back s h (nd_popBack s h)]; exact C01_pop_back s h)
   | (have h0 := C01_pop_back s h; unfold Refines at h0 ⊢; rw [tie_pop_back s h (nd_popBack s h)]; exact h0)
+  | (exact Refines.of_liveEq (ltie_pop_back s h (nd_popBack s h)) (C01_pop_back s h))
 
 maybe theorem C01_pop_front_src (s : Sys) (h : Inv s.buf) :
     Refines Gen.pop_front s (Spec.popFront (abs s.buf)).2 (Spec.popFront (abs s.buf)).1 := by
   first
   | (rw [tie_pop_front s h (nd_popFront s h)]; exact C01_pop_front s h)
   | (have h0 := C01_pop_front s h; unfold Refines at h0 ⊢; rw [tie_pop_front s h (nd_popFront s h)]; exact h0)
+  | (exact Refines.of_liveEq (ltie_pop_front s h (nd_popFront s h)) (C01_pop_front s h))
 
 maybe theorem C01_swap_src (s : Sys) (i j : Nat) (h : Inv s.buf) (hi : i < s.buf.size) (hj : j < s.buf.size) :
     Refines (Gen.swap i j) s () (Spec.swap (abs s.buf) i j) := by
   first
   | (rw [tie_swap _ _ s h (nd_swap _ _ s h)]; exact C01_swap s i j h hi hj)
   | (have h0 := C01_swap s i j h hi hj; unfold Refines at h0 ⊢; rw [tie_swap _ _ s h (nd_swap _ _ s h)]; exact h0)
+  | (exact Refines.of_liveEq (ltie_swap _ _ s h (nd_swap _ _ s h)) (C01_swap s i j h hi hj))
 
 maybe theorem C01_swap_remove_back_src (s : Sys) (i : Nat) (h : Inv s.buf) :
     Refines (Gen.swap_remove_back i) s (Spec.swapRemoveBack (abs s.buf) i).2
@@ -68,6 +76,7 @@ maybe theorem C01_swap_remove_back_src (s : Sys) (i : Nat) (h : Inv s.buf) :
   first
   | (rw [tie_swap_remove_back _ s h (nd_swapRemoveBack _ s h)]; exact C01_swap_remove_back s i h)
   | (have h0 := C01_swap_remove_back s i h; unfold Refines at h0 ⊢; rw [tie_swap_remove_back _ s h (nd_swapRemoveBack _ s h)]; exact h0)
+  | (exact Refines.of_liveEq (ltie_swap_remove_back _ s h (nd_swapRemoveBack _ s h)) (C01_swap_remove_back s i h))
 
 maybe theorem C01_swap_remove_front_src (s : Sys) (i : Nat) (h : Inv s.buf) :
     Refines (Gen.swap_remove_front i) s (Spec.swapRemoveFront (abs s.buf) i).2
@@ -75,6 +84,7 @@ maybe theorem C01_swap_remove_front_src (s : Sys) (i : Nat) (h : Inv s.buf) :
   first
   | (rw [tie_swap_remove_front _ s h (nd_swapRemoveFront _ s h)]; exact C01_swap_remove_front s i h)
   | (have h0 := C01_swap_remove_front s i h; unfold Refines at h0 ⊢; rw [tie_swap_remove_front _ s h (nd_swapRemoveFront _ s h)]; exact h0)
+  | (exact Refines.of_liveEq (ltie_swap_remove_front _ s h (nd_swapRemoveFront _ s h)) (C01_swap_remove_front s i h))
 
 maybe theorem C01_truncate_back_src (s : Sys) (n : Nat) (h : Inv s.buf) (hf : s.faults.drop = 0) :
     RefinesL (Gen.truncate_back n) s () (Spec.truncateBack (abs s.buf) n)
@@ -101,6 +111,7 @@ maybe theorem C01_remove_src (s : Sys) (i : Nat) (h : Inv s.buf) :
   first
   | (rw [tie_remove _ s h (nd_remove _ s h)]; exact C01_remove s i h)
   | (have h0 := C01_remove s i h; unfold Refines at h0 ⊢; rw [tie_remove _ s h (nd_remove _ s h)]; exact h0)
+  | (exact Refines.of_liveEq (ltie_remove _ s h (nd_remove _ s h)) (C01_remove s i h))
 
 maybe theorem C01_make_contiguous_src (s : Sys) (h : Inv s.buf) :
     ∃ b' v, Gen.make_contiguous s = (.ok v, { s with buf := b' }) ∧ Inv b' ∧ abs b' = abs s.buf ∧
